@@ -227,7 +227,7 @@ PROPS = {
     },
     "C17": {
         "level": "proof",
-        "suites": ["c17_contradiction"],
+        "suites": ["c17_contradiction", "c17_kill"],
         "columns": ["verdict", "cmds", "files", "hist"],
         "rule": "rule graphs in which one rule's command reads an undeclared file for a random subset of its targets; history: build, change the undeclared input (1 in 8: leave it), "
                 "force a re-execution (delete a target / tamper with it / clean and delete its cache entry), build. Monitor: exactly one Contradiction naming exactly the targets "
